@@ -49,6 +49,7 @@ func init() {
 		{"ignore", flags.IgnoreUnknown, ref.NoHandler},
 		{"handler-keep", flags.None, ref.HandlerKeep},
 		{"handler-drop-next", flags.None, ref.HandlerDropNext},
+		{"handler-drop-all", flags.None, ref.HandlerDropAll},
 		{"handler-insert", flags.None, ref.HandlerInsert},
 		{"handler-error", flags.None, ref.HandlerError},
 		{"fail+passdoubledash", flags.PassDoubleDash, ref.NoHandler},
@@ -190,7 +191,7 @@ func init() {
 		Level:      "model_checking",
 		ShardDepth: 5,
 		Body:       body,
-		Rule: "declaration with case-sensitive, namespaced and non-ASCII names and options that exist only in sibling / deeper commands; 7 policies (fail, fail+PassDoubleDash, IgnoreUnknown, handler returning the arguments unchanged / dropping the next / " +
+		Rule: "declaration with case-sensitive, namespaced and non-ASCII names and options that exist only in sibling / deeper commands; 8 policies (fail, fail+PassDoubleDash, IgnoreUnknown, handler returning the arguments unchanged / dropping the next / consuming all of them (nil slice) / " +
 			"inserting a token / returning an error) x {tags, API} x {fresh parser, parser that already parsed a vector selecting add/deep, selecting rm} x every sequence of <= 4 units (3 for the API build, the reused-parser and the argument-rewriting handler variants; thorough: one more for the fail and IgnoreUnknown policies, 4 for the rest) over 12 valid tokens and 23 near misses (case flips, names containing % or a NUL character, an unknown -<digits> token while an int positional is pending, prefixes, one character dropped/added/changed, " +
 			"namespace missing/doubled/case-changed, unknown character at either end of a cluster, two unknown characters in one cluster, inline arguments, a neighbouring non-ASCII letter); oracle = CLM scope tables and handler call log",
 		Assumptions:  []string{"the name passed to the handler for a multi-character cluster is not asserted beyond: it mentions every character of the cluster, from the first unknown one on, that names no option in scope", "values of flags that precede an unknown character inside one cluster are not asserted"},
